@@ -15,6 +15,9 @@ template <class T> struct tn;
 TN(int8_t) TN(uint8_t) TN(int16_t) TN(uint16_t) TN(int32_t) TN(uint32_t) TN(int64_t) TN(uint64_t)
 TN(char) TN(long long) TN(unsigned long long)
 
+#ifndef C15_TAG
+#define C15_TAG ""      // language dialect of this build when it is not the default one, e.g. "[c++20]"
+#endif
 static int g_full_bits = 24;   // enumerate all value pairs when bits(T)+bits(U) <= this
 
 template <class T>
@@ -88,7 +91,7 @@ inline void one(T t, U u, bool verbose = false)
     {
         if (r[i] != e[i])
         {
-            std::string sig = std::string("C15/") + fn[i] + "/" + tn<T>::name() + "," + tn<U>::name() + "/" +
+            std::string sig = std::string("C15/") + C15_TAG + fn[i] + "/" + tn<T>::name() + "," + tn<U>::name() + "/" +
                               cls(a, std::is_signed<T>::value) + "," + cls(b, std::is_signed<U>::value);
             vf::violation(sig, std::string(fn[i]) + "(" + tn<T>::name() + "(" + s128(a) + "), " + tn<U>::name() + "(" + s128(b) +
                                    ")) returned " + (r[i] ? "true" : "false") + ", mathematical comparison says " + (e[i] ? "true" : "false"),
@@ -97,7 +100,7 @@ inline void one(T t, U u, bool verbose = false)
     }
     int n = int(r[0]) + int(r[2]) + int(r[3]);
     if (n != 1)
-        vf::violation(std::string("C15/trichotomy/") + tn<T>::name() + "," + tn<U>::name(),
+        vf::violation(std::string("C15/") + C15_TAG + "trichotomy/" + tn<T>::name() + "," + tn<U>::name(),
                       "not exactly one of less/equal/greater for " + s128(a) + ", " + s128(b),
                       {"--one", tn<T>::name(), tn<U>::name(), s128(a), s128(b)});
     if (verbose)
